@@ -357,43 +357,47 @@ inline size_t minimalPayloadSize(const std::string& type, size_t vi) {
 	return n;
 }
 
-// Single-subject file: block 0 = root NiNode listing all others as children,
-// block 1 = subject (fed from the tape), blocks 2.. = minimal target blocks the
-// subject's references may designate (acyclic by construction).
-inline SynthFile synthSingleFile(const std::string& type, size_t vi, Tape& tape) {
+// Synthesised file: block 0 = root NiNode listing all others as children,
+// blocks 1..k = subjects (fed from the tape, in order), blocks k+1.. = minimal target
+// blocks. Subject i may reference subjects j > i and the targets, so the reference
+// graph is acyclic by construction and every block is reachable from the root.
+inline SynthFile synthMultiFile(const std::vector<std::string>& types, size_t vi, Tape& tape) {
 	static const char* targetTypes[] = {"NiNode", "NiStringExtraData", "BSShaderTextureSet", "NiTriShapeData",
 										"NiAlphaProperty"};
 	const VersionCfg& v = versions()[vi];
 	SynthFile out;
-	out.type = type;
-
-	SynthPlan plan;
-	plan.numStrings = v.file >= 0x14010001 ? static_cast<uint32_t>(synthStrings().size()) : 0;
+	const uint32_t k = static_cast<uint32_t>(types.size());
 	const uint32_t nTargets = 5;
-	for (uint32_t i = 0; i < nTargets; i++)
-		plan.refTargets.push_back(2 + i);
-
-	out.subject = synthBlock(type, v, tape, plan);
-	if (!out.subject.ok) {
-		out.aborted = out.subject.aborted;
-		return out;
-	}
-	out.payloadSize = out.subject.payload.size();
+	out.type = types.empty() ? "" : types[0];
 
 	mini::File f = mini::skeleton(v.file, v.user, v.stream);
 	if (v.file >= 0x14010001)
 		f.strings = synthStrings();
-
-	// root node
 	{
 		nifly::NiNode root;
 		root.name.get() = "Scene Root";
 		root.name.SetIndex(0);
-		for (uint32_t i = 0; i < nTargets + 1; i++)
+		for (uint32_t i = 0; i < nTargets + k; i++)
 			root.childRefs.AddBlockRef(1 + i);
 		mini::addBlock(f, "NiNode", putBlock(root, v));
 	}
-	mini::addBlock(f, type, out.subject.payload);
+	for (uint32_t i = 0; i < k; i++) {
+		SynthPlan plan;
+		plan.numStrings = v.file >= 0x14010001 ? static_cast<uint32_t>(synthStrings().size()) : 0;
+		for (uint32_t j = i + 2; j <= k; j++)
+			plan.refTargets.push_back(j);
+		for (uint32_t j = 0; j < nTargets; j++)
+			plan.refTargets.push_back(k + 1 + j);
+		SynthResult r = synthBlock(types[i], v, tape, plan);
+		if (!r.ok) {
+			out.aborted = r.aborted;
+			return out;
+		}
+		out.payloadSize += r.payload.size();
+		mini::addBlock(f, types[i], r.payload);
+		if (i == 0)
+			out.subject = std::move(r);
+	}
 	std::vector<uint8_t> z;
 	for (uint32_t i = 0; i < nTargets; i++) {
 		Tape zt(z);
@@ -406,6 +410,11 @@ inline SynthFile synthSingleFile(const std::string& type, size_t vi, Tape& tape)
 	out.bytes = mini::write(f);
 	out.ok = true;
 	return out;
+}
+
+// Single-subject file: root, subject at index 1, five targets at 2..6
+inline SynthFile synthSingleFile(const std::string& type, size_t vi, Tape& tape) {
+	return synthMultiFile({type}, vi, tape);
 }
 
 } // namespace vf
